@@ -179,6 +179,9 @@ class TaskScheduler(object):
 
     def _continue_with_task(self, task):
         task._resume_contexts()
+        if task.is_computed():
+            # a context's resume() raised: the task was completed with that error and must not run
+            return 0
         old_task = self.active_task
         self.active_task = task
 
